@@ -1,1 +1,229 @@
-// hooks for src/lib.rs
+// Crate-level verification hooks for rdest (compiled only under cfg(kani) / cfg(rdest_verif)).
+// Every harness is a Rust rendering of one labelled clause of /verif/units/*/*.vxt and carries that label.
+#![allow(dead_code, unused_imports)]
+use crate::messages::{Bitfield, Cancel, Choke, Handshake, Have, Interested, KeepAlive, NotInterested, Piece, Request, Unchoke};
+use crate::serializer::Serializer;
+use crate::Error;
+
+#[cfg(kani)]
+mod kani_harnesses {
+    use super::*;
+
+    // N4 shim validation (units/lib/core.vxt u32_to_be_bytes / u32_from_be_bytes against be4 / be32): complete, all u32
+    #[kani::proof]
+    fn kani_be_bytes_shim() {
+        let x: u32 = kani::any();
+        let b = x.to_be_bytes();
+        assert!(b[0] as u32 == x / 16777216);
+        assert!(b[1] as u32 == (x / 65536) % 256);
+        assert!(b[2] as u32 == (x / 256) % 256);
+        assert!(b[3] as u32 == x % 256);
+        let y = u32::from_be_bytes(b);
+        assert!(y as u64 == (b[0] as u64) * 16777216 + (b[1] as u64) * 65536 + (b[2] as u64) * 256 + b[3] as u64);
+        assert!(y == x);
+    }
+
+    // MSG/Request::validate/ok_iff_in_piece  (C09): complete, all (index, begin, length) in u32^3 and all usize arguments
+    // in the ranges the call site can produce; in particular begin + length may exceed 32 bits
+    #[kani::proof]
+    fn kani_request_validate() {
+        let (pi, bb, bl): (u32, u32, u32) = (kani::any(), kani::any(), kani::any());
+        let r = Request::new(pi as usize, bb as usize, bl as usize);
+        let idx: usize = kani::any();
+        let n: usize = kani::any();
+        let pl: usize = kani::any();
+        kani::assume(idx <= u32::MAX as usize && n <= u32::MAX as usize);
+        let res = r.validate(idx, n, pl);
+        let ok = (pi as usize) < n && pi as usize == idx && bl <= 16384 && (bb as u64 + bl as u64) <= pl as u64;
+        assert!(res.is_ok() == ok);
+    }
+
+    // MSG lemma_roundtrip_* / data_is_bep3_encoding / Frame::parse (C07): complete for every fixed-size message:
+    // the emitted bytes are the BEP3 layout and decoding them yields the same message and consumes exactly its length
+    #[kani::proof]
+    fn kani_roundtrip_request_cancel_have() {
+        let (pi, bb, bl): (u32, u32, u32) = (kani::any(), kani::any(), kani::any());
+        let d = Request::new(pi as usize, bb as usize, bl as usize).data();
+        assert!(d.len() == 17 && d[0] == 0 && d[1] == 0 && d[2] == 0 && d[3] == 13 && d[4] == 6);
+        assert!(d[5..9] == pi.to_be_bytes() && d[9..13] == bb.to_be_bytes() && d[13..17] == bl.to_be_bytes());
+        let mut crs = std::io::Cursor::new(&d[..]);
+        match crate::frame::Frame::parse(&mut crs) {
+            Ok(crate::frame::Frame::Request(q)) => {
+                assert!(q.piece_index() == pi as usize && q.block_begin() == bb as usize && q.block_length() == bl as usize);
+                assert!(crs.position() == 17);
+            }
+            _ => assert!(false),
+        }
+        let c = Cancel::new(pi as usize, bb as usize, bl as usize).data();
+        assert!(c.len() == 17 && c[3] == 13 && c[4] == 8);
+        assert!(c[5..9] == pi.to_be_bytes() && c[9..13] == bb.to_be_bytes() && c[13..17] == bl.to_be_bytes());
+        let mut crs = std::io::Cursor::new(&c[..]);
+        match crate::frame::Frame::parse(&mut crs) {
+            Ok(crate::frame::Frame::Cancel(_)) => assert!(crs.position() == 17),
+            _ => assert!(false),
+        }
+        let h = Have::new(pi as usize).data();
+        assert!(h.len() == 9 && h[3] == 5 && h[4] == 4 && h[5..9] == pi.to_be_bytes());
+        let mut crs = std::io::Cursor::new(&h[..]);
+        match crate::frame::Frame::parse(&mut crs) {
+            Ok(crate::frame::Frame::Have(x)) => assert!(x.piece_index() == pi as usize && crs.position() == 9),
+            _ => assert!(false),
+        }
+    }
+
+    #[kani::proof]
+    fn kani_roundtrip_simple() {
+        let msgs: [(Vec<u8>, u8); 4] = [(Choke::new().data(), 0), (Unchoke::new().data(), 1), (Interested::new().data(), 2), (NotInterested::new().data(), 3)];
+        for (d, id) in msgs.iter() {
+            assert!(d.len() == 5 && d[0] == 0 && d[1] == 0 && d[2] == 0 && d[3] == 1 && d[4] == *id);
+            let mut crs = std::io::Cursor::new(&d[..]);
+            let ok = match (crate::frame::Frame::parse(&mut crs), *id) {
+                (Ok(crate::frame::Frame::Choke(_)), 0) => true,
+                (Ok(crate::frame::Frame::Unchoke(_)), 1) => true,
+                (Ok(crate::frame::Frame::Interested(_)), 2) => true,
+                (Ok(crate::frame::Frame::NotInterested(_)), 3) => true,
+                _ => false,
+            };
+            assert!(ok && crs.position() == 5);
+        }
+        let k = KeepAlive::new().data();
+        assert!(k.len() == 4 && k[0] == 0 && k[1] == 0 && k[2] == 0 && k[3] == 0);
+        let mut crs = std::io::Cursor::new(&k[..]);
+        match crate::frame::Frame::parse(&mut crs) {
+            Ok(crate::frame::Frame::KeepAlive(_)) => assert!(crs.position() == 4),
+            _ => assert!(false),
+        }
+    }
+
+    // MSG/Handshake::validate (assumed in Verus because of enumerate().any()): complete over 3 x 160 symbolic bits (C08)
+    #[kani::proof]
+    #[kani::unwind(22)]
+    fn kani_handshake_validate() {
+        let ih: [u8; 20] = kani::any();
+        let pid: [u8; 20] = kani::any();
+        let my_ih: [u8; 20] = kani::any();
+        let exp: Option<[u8; 20]> = if kani::any() { Some(kani::any()) } else { None };
+        let hs = Handshake::new(&ih, &pid);
+        let r = hs.validate(&my_ih, &exp);
+        let same_hash = ih == my_ih;
+        let id_ok = match exp { Some(e) => e == pid, None => true };
+        match r {
+            Ok(()) => assert!(same_hash && id_ok),
+            Err(Error::InvalidInfoHash) => assert!(!same_hash),
+            Err(Error::InvalidPeerId) => assert!(same_hash && !id_ok),
+            Err(_) => assert!(false),
+        }
+    }
+
+    // MSG/Handshake::data + Frame::parse on the handshake branch: complete over both 20-byte fields (C07, C08)
+    #[kani::proof]
+    #[kani::unwind(70)]
+    fn kani_roundtrip_handshake() {
+        let ih: [u8; 20] = kani::any();
+        let pid: [u8; 20] = kani::any();
+        let d = Handshake::new(&ih, &pid).data();
+        assert!(d.len() == 68 && d[0] == 19 && &d[1..20] == b"BitTorrent protocol");
+        assert!(d[20..28] == [0u8; 8] && d[28..48] == ih && d[48..68] == pid);
+        let mut crs = std::io::Cursor::new(&d[..]);
+        match crate::frame::Frame::parse(&mut crs) {
+            Ok(crate::frame::Frame::Handshake(h)) => {
+                assert!(crs.position() == 68 && *h.peer_id() == pid);
+                assert!(h.validate(&ih, &Some(pid)).is_ok());
+            }
+            _ => assert!(false),
+        }
+    }
+
+    // MSG/Bitfield::from_vec (assumed in Verus: chunks()/enumerate()): BOUNDED: piece counts n in {1, 7, 8, 9, 16, 17}, every
+    // content: byte count ceil(n/8), piece i <-> bit (7 - i%8) of byte i/8, spare bits zero; to_vec is its inverse (C07, C11)
+    fn bitfield_case<const N: usize>() {
+        let bits: [bool; N] = kani::any();
+        let v: Vec<bool> = bits.to_vec();
+        let bf = Bitfield::from_vec(&v);
+        let d = bf.data();
+        let nbytes = (N + 7) / 8;
+        assert!(d.len() == 5 + nbytes && d[4] == 5);
+        let mut i = 0;
+        while i < 8 * nbytes {
+            let bit = (d[5 + i / 8] >> (7 - i % 8)) & 1 == 1;
+            if i < N { assert!(bit == bits[i]); } else { assert!(!bit); }
+            i += 1;
+        }
+        match bf.to_vec(N) {
+            Ok(back) => { assert!(back.len() == N); let mut j = 0; while j < N { assert!(back[j] == bits[j]); j += 1; } }
+            Err(_) => assert!(false),
+        }
+    }
+    #[kani::proof]
+    #[kani::unwind(26)]
+    fn kani_bitfield_from_vec_small() { bitfield_case::<1>(); bitfield_case::<7>(); bitfield_case::<8>(); bitfield_case::<9>(); }
+    #[kani::proof]
+    #[kani::unwind(26)]
+    fn kani_bitfield_from_vec_17() { bitfield_case::<16>(); bitfield_case::<17>(); }
+
+    // N16 shim validation (vx_copy_range): v[a..b].copy_from_slice(s) == v[..a] ++ s ++ v[b..], BOUNDED (len <= 6)
+    #[kani::proof]
+    #[kani::unwind(8)]
+    fn kani_copy_range_shim() {
+        let base: [u8; 6] = kani::any();
+        let src: [u8; 6] = kani::any();
+        let (a, b): (usize, usize) = (kani::any(), kani::any());
+        kani::assume(a <= b && b <= 6);
+        let mut v = base.to_vec();
+        v[a..b].copy_from_slice(&src[..b - a]);
+        let mut i = 0;
+        while i < 6 {
+            if i < a || i >= b { assert!(v[i] == base[i]); } else { assert!(v[i] == src[i - a]); }
+            i += 1;
+        }
+    }
+
+    // C16 (bounded stand-in): BDecoder::parse_int on every input of exactly N bytes: never panics; succeeds exactly when the
+    // bytes up to the first 'e' are -?[1-9][0-9]* or 0, with that value
+    fn parse_int_case<const N: usize>() {
+        let buf: [u8; N] = kani::any();
+        let mut it = buf.iter().enumerate();
+        let r = crate::BDecoder::parse_int(&mut it, 0);
+        // reference recogniser (independent of the code under test)
+        let mut e = N;
+        let mut k = 0;
+        while k < N { if buf[k] == b'e' && e == N { e = k; } k += 1; }
+        let mut wf = e < N && e > 0;
+        let neg = e > 0 && buf[0] == b'-';
+        let ds = if neg { 1 } else { 0 };
+        if wf {
+            if e == ds { wf = false; }
+            let mut j = ds;
+            while j < e { if !(buf[j] >= b'0' && buf[j] <= b'9') { wf = false; } j += 1; }
+            if wf && buf[ds] == b'0' && (e - ds > 1 || neg) { wf = false; }
+        }
+        match r {
+            Ok((v, raw)) => {
+                assert!(wf);
+                let mut val: i64 = 0;
+                let mut j = ds;
+                while j < e { val = val * 10 + (buf[j] - b'0') as i64; j += 1; }
+                assert!(v == if neg { -val } else { val });
+                assert!(raw.len() == e + 2 && raw[0] == b'i' && raw[e + 1] == b'e');
+            }
+            Err(_) => assert!(!wf),
+        }
+    }
+    #[kani::proof]
+    #[kani::unwind(6)]
+    fn kani_parse_int_3() { parse_int_case::<3>(); }
+    #[kani::proof]
+    #[kani::unwind(7)]
+    fn kani_parse_int_4() { parse_int_case::<4>(); }
+
+}
+
+// Native checks (cargo test with --cfg rdest_verif): validation of shims Verus has to assume, on the real functions
+#[cfg(all(test, rdest_verif))]
+mod native {
+    #[test]
+    fn native_unterminated_containers_known_finding() {
+        // D12b (known finding, recorded in /verif/known_findings.jsonl): unterminated lists / dictionaries are accepted
+        assert!(crate::BDecoder::from_array(b"li1e").is_ok());
+    }
+}
